@@ -28,6 +28,7 @@ const (
 	stSet
 	stHavoc
 	stMerge
+	stMix // ghost logs from preds[1] (current), everything else from preds[0] (entry)
 )
 
 type State struct {
@@ -128,6 +129,11 @@ func (e *Enc) Get(s *State, comp string) Term {
 		} else {
 			t = e.Get(s.prev, comp)
 		}
+	case stMix:
+		if strings.HasPrefix(comp, "$") && e.isLogComp(comp) {
+			return e.Get(s.preds[1], comp)
+		}
+		return e.Get(s.preds[0], comp)
 	case stMerge:
 		// resolve in all preds; if all equal, no ite needed
 		ts := make([]Term, len(s.preds))
@@ -448,4 +454,11 @@ func allocLivesIn(filters []string, comp string) bool {
 		}
 	}
 	return false
+}
+
+// Mix: the entry heap seen together with the current ghost logs (contract builtin before(e)).
+func (e *Enc) Mix(old, cur *State) *State {
+	n := e.newState(stMix)
+	n.preds = []*State{old, cur}
+	return n
 }
